@@ -5,14 +5,16 @@ Model of sidecar validation — the sidecar layer only:
   `SidecarValidator.validate/validate_structure/_validate_column_structure/_validate_categorical_column/
    _validate_refs/_find_non_matching_braces/_check_for_key/_validate_pound_sign_count/_check_definitions_bad_spot`
                                                                                           (hed/validator/sidecar_validator.py)
-  the non-"n/a" branch of `df_util.replace_ref` (= `str.replace`).
+  `HedString.__init__/remove_refs/shrink_defs/__str__` as far as `_validate_pound_sign_count` needs them
+  (parse tree of `Model/Tok`, the `#` are counted on the tags that are left);
+  `df_util.replace_ref` (both branches: the model of `Model/Assemble`, property C06).
 
 What the HED *string* layer says about an entry string (HedValidator.run_basic_checks / run_full_string_checks,
-definition extraction, the "n/a" branch of replace_ref) is NOT modelled: it enters through `Oracle`.
+definition extraction, which tag resolves to `Def-expand`) is NOT modelled: it enters through `Oracle`.
 
 Every Python operation that is partial on a wrongly-typed JSON value (`d[k]`, `.get`, `.items()`, `.keys()`,
 `pd.Series(non-strings)`, `refs_strings[key]`, `dict.update(non-dict)`) is an explicit `Except` step, so that
-"never raises" is a theorem (`Props/C08.total`).  `Guards` switches the three type guards proposed in
+"never raises" is a theorem (`Props/C08.total`).  `Guards` switches the guards proposed in
 /verif/fixes/C08_*.diff on (`Guards.fixed`: the tree the check is run against) or off (`Guards.unfixed`: the
 tree as found; used only for the counter-example theorems).
 
@@ -21,6 +23,8 @@ association list in document order with distinct keys (`json.load` has already c
 No Mathlib: this file is linked into the native driver.
 -/
 import HedVerif.Generated.C08Codes
+import HedVerif.Model.Tok
+import HedVerif.Model.Assemble
 
 namespace HedVerif.SidecarV
 open HedVerif.Generated
@@ -255,10 +259,10 @@ structure Oracle where
   full : Str → List (Str × Nat)
   /-- number of `Definition/` tags found in `s` (`find_tags({"Definition"}, recursive=True)`) -/
   defCount : Str → Nat
-  /-- `df_util.replace_ref(text, "{ref}", "n/a")` -/
-  repNa : Str → Str → Str
   /-- `sidecar._extract_definition_issues + sidecar_def_dict.issues`, with their contexts -/
   defIssues : List Issue
+  /-- does the tag with this text resolve to `Def-expand` (`tag.short_base_tag.casefold() == "def-expand"`)? -/
+  isDefExpand : Str → Bool := fun _ => false
 
 def ext (col key : Option Str) (cs : Str × Nat) : Issue := ⟨[], cs.1, cs.2, col, key⟩
 
@@ -270,9 +274,11 @@ structure Guards where
   top : Bool
   /-- `SidecarValidator.validate`: references to unknown columns are reported, not indexed (C08_unknown_ref_keyerror.diff) -/
   ref : Bool
+  /-- `HedString.shrink_defs`: a group already replaced is not replaced a second time (C08_shrink_defs_twice.diff) -/
+  shrink : Bool
 
-def Guards.fixed : Guards := ⟨true, true, true⟩
-def Guards.unfixed : Guards := ⟨false, false, false⟩
+def Guards.fixed : Guards := ⟨true, true, true, true⟩
+def Guards.unfixed : Guards := ⟨false, false, false, false⟩
 
 /-! ## Loading and column kinds -/
 
@@ -416,17 +422,91 @@ def refIssues (g : Guards) (cols : List Col) : Except Exn (List Issue) :=
 
 /-! ## the per-entry loop of `validate` -/
 
+/-! ### the tree whose `#` are counted
+
+`_validate_pound_sign_count` works on a deep copy of the entry's `HedString` *after* `remove_refs()`; it calls
+`remove_definitions()` (a no-op here: the count is only made for entries in which no `Definition` tag was found) and
+`shrink_defs()`, and counts `"#"` in `str()` of what is left.  `str()` prints each remaining tag (its short form when it
+resolves: namespace + short name + the extension as written, else its source text) joined by `,` and parentheses, so the
+number of `#` printed is the number of `#` in the source spans of the remaining tags. -/
+
+/-- source text of a tag -/
+def tagText (s : Str) (a b : Nat) : Str := Tree.slice s a b
+
+/-- `HedTag.is_column_ref`: `org_tag.startswith('{') and org_tag.endswith('}')` -/
+def isRefTag (t : Str) : Bool := t.head? == some '{' && t.getLast? == some '}'
+
+mutual
+/-- `HedString.remove_refs` = `HedGroup.remove(ref tags)`: a group that becomes empty is pruned too -/
+def dropNode (s : Str) : Node → Option Node
+  | .tag a b => if isRefTag (tagText s a b) then none else some (.tag a b)
+  | .group a b kids =>
+    let k := dropList s kids
+    if k.isEmpty && !kids.isEmpty then none else some (.group a b k)
+def dropList (s : Str) : List Node → List Node
+  | [] => []
+  | n :: ns =>
+    match dropNode s n with
+    | none => dropList s ns
+    | some m => m :: dropList s ns
+end
+
+/-- the direct child tags of a group that resolve to `Def-expand`, in order -/
+def defExpandTags (O : Oracle) (s : Str) : List Node → List (Nat × Nat)
+  | [] => []
+  | .tag a b :: ns => if O.isDefExpand (tagText s a b) then (a, b) :: defExpandTags O s ns else defExpandTags O s ns
+  | .group .. :: ns => defExpandTags O s ns
+
+mutual
+/-- Does `shrink_defs` raise?  It replaces, for every `Def-expand` tag found (`find_tags(recursive=True)`), the group
+holding the tag by the tag — in the group's parent, searched by identity.  A group (other than the string itself) holding
+two such tags is looked for a second time after it has been replaced: `KeyError` (the tree as found). -/
+def twiceNode (O : Oracle) (s : Str) : Node → Bool
+  | .tag .. => false
+  | .group _ _ kids => (defExpandTags O s kids).length ≥ 2 || twiceList O s kids
+def twiceList (O : Oracle) (s : Str) : List Node → Bool
+  | [] => false
+  | n :: ns => twiceNode O s n || twiceList O s ns
+end
+
+mutual
+/-- `#` printed by `str()` after `shrink_defs`: a group holding a `Def-expand` tag prints as that tag (the first one) -/
+def hashNode (O : Oracle) (s : Str) : Node → Nat
+  | .tag a b => countHash (tagText s a b)
+  | .group _ _ kids =>
+    match defExpandTags O s kids with
+    | (a, b) :: _ => countHash (tagText s a b)
+    | [] => hashList O s kids
+def hashList (O : Oracle) (s : Str) : List Node → Nat
+  | [] => 0
+  | n :: ns => hashNode O s n + hashList O s ns
+end
+
+/-- the children of `HedString(s)` after `remove_refs()` (unbalanced parentheses: no children) -/
+def entryTree (s : Str) : List Node := dropList s (Tree.construct s)
+
+/-- `str(hed_string_copy).count("#")` of `_validate_pound_sign_count`, as a function of the entry text -/
+def treeHash (O : Oracle) (s : Str) : Nat := hashList O s (entryTree s)
+
+/-- the count, or the `KeyError` of `shrink_defs` -/
+def poundOf (g : Guards) (O : Oracle) (s : Str) : Except Exn Nat :=
+  if !g.shrink && twiceList O s (entryTree s) then .error .keyError else .ok (treeHash O s)
+
 /-- `_validate_pound_sign_count` + `expected_pound_sign_count`; for a column of no usable type the error type is
 `None` (never reached: such columns have no strings) -/
-def poundCount (t : Option CType) (s : Str) (col key : Option Str) : Except Exn (List Issue) :=
-  match t with
-  | some .value => .ok (if countHash s != 1 then [mk .poundValue col key] else [])
-  | some .categorical => .ok (if countHash s != 0 then [mk .poundCategory col key] else [])
-  | _ => if countHash s != 0 then .error .unmodelled else .ok []
+def poundCount (g : Guards) (O : Oracle) (t : Option CType) (s : Str) (col key : Option Str) : Except Exn (List Issue) :=
+  match poundOf g O s with
+  | .error x => .error x
+  | .ok n =>
+    match t with
+    | some .value => .ok (if n != 1 then [mk .poundValue col key] else [])
+    | some .categorical => .ok (if n != 0 then [mk .poundCategory col key] else [])
+    | _ => if n != 0 then .error .unmodelled else .ok []
 
-/-- `df_util.replace_ref(text, "{ref}", value)` -/
-def replaceRef (O : Oracle) (text ref value : Str) : Str :=
-  if value == NA then O.repNa text ref else replaceAll text ('{' :: ref ++ ['}']) value
+/-- `df_util.replace_ref(text, "{ref}", value)`: `str.replace` for a proper value, the splice that also removes the
+surrounding comma / parentheses for `n/a` and `""` (`Assemble.replaceRef`, the model of property C06).  The oracle
+argument is not used; it is kept for callers. -/
+def replaceRef (_O : Oracle) (text ref value : Str) : Str := Assemble.replaceRef text ref value
 
 /-- `ref_dict = dict(zip(refs, combination))`; `ref_dict[ref]` (later duplicates win) -/
 def refDictGet (rd : List (Str × Str)) (r : Str) : Str := (lookup r rd.reverse).getD []
@@ -452,7 +532,7 @@ def entryIssues (g : Guards) (O : Oracle) (refsStrings : List (Str × List Str))
     (t : Option CType) (col : Str) (key : Option Str) (s : Str) : Except Exn (Nat × List Issue) :=
   let b := (O.basic s).map (ext (some col) key)
   let dc := O.defCount s
-  match (if dc == 0 then poundCount t s (some col) key else .ok []) with
+  match (if dc == 0 then poundCount g O t s (some col) key else .ok []) with
   | .error x => .error x
   | .ok p => match (if isRefCol then .ok [] else fullIssues g O refsStrings s (some col) key) with
     | .error x => .error x
